@@ -80,7 +80,8 @@ func (c *FnCtx) special(frame *Frame, st *State, in ssa.Instruction, call *ssa.C
 					}
 				}
 				st.oldHeap = copyHeap(st.heap)
-				st.oldAlloc = st.alloc
+				// oldAlloc stays the allocated set at function entry: locals allocated before the
+				// Lock are not part of the caller-visible frame
 			}
 		case "unlock", "runlock":
 			c.assertLockInv(st, li, obj, in)
